@@ -238,7 +238,11 @@ fn module_index(p: &Program, from: usize, path: &str) -> Option<usize> {
         match s {
             "." | "" => {}
             ".." => {
-                segs.pop();
+                if segs.last().map_or(true, |l| *l == "..") {
+                    segs.push("..");
+                } else {
+                    segs.pop();
+                }
             }
             s => segs.push(s),
         }
